@@ -109,7 +109,7 @@ def gen_value(tape, model, t, depth=0, prefer=None):
         for f in model.all_fields(d):
             _, nullable = model.unwrap(f.type)
             optional = nullable or f.default is not None
-            want = prefer and ('field', d.ns, d.name, f.name) in prefer
+            want = prefer and depth <= 3 and ('field', d.ns, d.name, f.name) in prefer
             if optional and not want and (depth > 3 or tape.chance(45)):
                 continue
             if optional and want and tape.chance(15):
@@ -129,7 +129,7 @@ def gen_value(tape, model, t, depth=0, prefer=None):
                   or model.unwrap(g.type)[0].kind == 'prim']
         tags = simple or tags
     g = tags[tape.draw(len(tags))]
-    if prefer:
+    if prefer and depth <= 3:
         for cand in tags:
             if ('tag', d.ns, d.name, cand.name) in prefer and tape.chance(80):
                 g = cand
